@@ -514,7 +514,10 @@ class Sweep(Algorithm):
 
     def make_eff_H(self):
         """Create new instance of `self.EffectiveH` at `self.i0` and set it to `self.eff_H`."""
-        self.eff_H = self.EffectiveH(self.env, self.i0, self.combine, self.move_right)
+        # combining legs into pipes (an optimization only) assumes that bra and ket have the same legs and that the
+        # updated tensor enters both: not the case for VariationalCompression / VariationalApplyMPO
+        combine = self.combine and self.env.bra is self.env.ket
+        self.eff_H = self.EffectiveH(self.env, self.i0, combine, self.move_right)
         # note: this order of wrapping is most effective.
         if hasattr(self.env, 'H') and self.env.H.explicit_plus_hc:
             self.eff_H = SumNpcLinearOperator(self.eff_H, self.eff_H.adjoint())
